@@ -5,6 +5,7 @@ import os, re, subprocess, sys
 from pathlib import Path
 REPO = Path(os.environ.get("SPOX_REPO", "/work/repo-c05"))
 ROOT = Path(__file__).resolve().parent.parent
+U = "src/spox/_utils.py"
 N, T, S, SH, V17, ML = ("src/spox/_node.py", "src/spox/_type_system.py", "src/spox/_standard.py", "src/spox/_shape.py",
                         "src/spox/opset/ai/onnx/v17.py", "src/spox/opset/ai/onnx/ml/v3.py")
 def sh(cmd, **kw): return subprocess.run(cmd, shell=True, capture_output=True, text=True, **kw)
@@ -52,6 +53,10 @@ MUTS = {
    [(ML, "        return {\"Y\": Tensor(np.float32, t.shape)}\n\n    op_type = OpType(\"Scaler\"", "        return {\"Y\": Tensor(t.dtype, t.shape)}\n\n    op_type = OpType(\"Scaler\"")],
  "Compress supplement forgets the vector shape again (fix 2f0b661 reverted)":
    [(V17, "        if inp.shape is None and self.attrs.axis is not None:\n", "        if not inp.shape:\n")],
+ "element types: bfloat16 read back from ONNX as float16":
+   [(U, "    return onnx.helper.tensor_dtype_to_np_dtype(ttype)\n", "    if ttype == onnx.TensorProto.BFLOAT16:\n        return np.dtype(np.float16)\n    return onnx.helper.tensor_dtype_to_np_dtype(ttype)\n")],
+ "element types: a complex128 operand is declared complex64":
+   [(U, "    try:\n        return onnx.helper.np_dtype_to_tensor_dtype(dtype)\n", "    if dtype == np.dtype(np.complex128):\n        return onnx.TensorProto.COMPLEX64\n    try:\n        return onnx.helper.np_dtype_to_tensor_dtype(dtype)\n")],
  "unk_ (one underscore) prefix stripped: a user's symbolic dimension unk_1 is dropped":
    [(S, "lambda x: x.startswith(\"unk__\")", "lambda x: x.startswith(\"unk_\")")],
 }
